@@ -31,7 +31,7 @@ PROPS = {
                              "bv.rank.clamp", "bv.rank.word0", "bv.copy", "bv.from_bits", "bv.from_raw", "bv.pred", "bv.succ"]),
     "C09": P("C09", regimes=["bv.rank.clamp", "bv.select.none", "sp.rank.clamp", "sp.select.none", "rl.rank.clamp", "wm.rank.absent",
                              "wmc.mapup.below", "iv.ctor.reject", "bv.it.pred", "sp.it.pred", "rl.it.pred", "wm.it.pred"]),
-    "C08": P("C08", gens=["C08", "C09", "C10"], profiles=dict(quick=T, thorough=T), forbid=["oob", "child-died", "signal"],
+    "C08": P("C08", gens=["C08", "C09", "C10", "C01", "C02", "C15"], profiles=dict(quick=T, thorough=T), forbid=["oob", "child-died", "signal"],
              regimes=["bv.it.one", "bv.it.zero", "bv.it.sel", "select.pdep", "select.portable"],
              explanation="theorem: every unchecked read in the model is in range (an out-of-range read would be the distinct outcome `oob`), both "
                          "arithmetic modes; runtime: the same recipes with bounds hooks on in all four build configurations"),
